@@ -3,13 +3,14 @@
 # Runs a check against a seeded change WITHOUT touching /repo: the patch is applied in a scratch
 # worktree of /repo's HEAD, the check runs against that copy (VERIF_REPO) with its own evidence /
 # replay root (VERIF_ROOT), and the worktree is removed afterwards. Safe to run in parallel.
+HERE=$(cd "$(dirname "$0")" && pwd)
 P=$(readlink -f "$1"); ID=$2; TIER=${3:-quick}
 W=/tmp/st-$$-$RANDOM
 git -C /repo worktree add -q --detach $W/repo HEAD || exit 3
-mkdir -p $W/root; cp /verif/known_findings.txt $W/root/
+mkdir -p $W/root; cp $HERE/known_findings.txt $W/root/
 if ! git -C $W/repo apply "$P" 2>$W/err; then echo "PATCH-DOES-NOT-APPLY $P: $(head -1 $W/err)"; git -C /repo worktree remove --force $W/repo; rm -rf $W; exit 3; fi
-cd /verif
+cd $HERE
 VERIF_REPO=$W/repo VERIF_ROOT=$W/root timeout 3000 ./vcheck.sh $ID $TIER > $W/log 2>&1; rc=$?
 grep -E "^(VIOLATION|OK|INFRA)" $W/log | cut -c1-330 | head -4
 echo "exit=$rc"
-git -C /repo worktree remove --force $W/repo; rm -rf $W /verif/.work/overlay-*-$(echo "$W/repo" | md5sum | cut -c1-8) /verif/.work/bin/*-$(echo "$W/repo" | md5sum | cut -c1-8)* /verif/.work/go-$(echo "$W/repo" | md5sum | cut -c1-8).*
+git -C /repo worktree remove --force $W/repo; rm -rf $W $HERE/.work/overlay-*-$(echo "$W/repo" | md5sum | cut -c1-8) $HERE/.work/bin/*-$(echo "$W/repo" | md5sum | cut -c1-8)* $HERE/.work/go-$(echo "$W/repo" | md5sum | cut -c1-8).*
